@@ -1,7 +1,7 @@
 (* C02 — Generated C accessors address the same bytes as the Python view. Statements only. *)
 From Coq Require Import ZArith List Bool Lia.
 Import ListNotations.
-From XO Require Import Slots Strides BufOps Types Format CExpr CExprProofs CSpec CSpecProofs.
+From XO Require Import Slots Strides BufOps Types Format LayoutProofs CExpr CExprProofs CSpec CSpecProofs Address.
 Open Scope Z_scope.
 
 (* the normaliser preserves the value of an address expression for every index vector and every
@@ -25,6 +25,33 @@ Theorem C02_accessor_sound : forall f, cfun_ok f = None ->
 Proof. exact cfun_ok_sound. Qed.
 (* N-D arrays: the stride formula used by the specification is the row-major position in the
    permuted index space, for every rank and every axis order *)
+(* END TO END: an accessor accepted by the validator, run with in-range indices on ANY buffer that holds
+   the documented image of ANY value of its type at ANY offset, computes the address at which the
+   documented image of the addressed element sits, and that lies inside the object.  (nav: the element
+   a path denotes under the index arguments; crun: C semantics of the emitted body and return
+   expression; loads read the buffer relative to the object start.)  With C05's tie (the bytes of
+   every object ARE the documented image) this is "C and Python address the same bytes". *)
+Theorem C02_accessor_addresses_element : forall f v img m o ix lt lv ic',
+  cfun_ok f = None -> (cf_action f = AGetp \/ ((cf_action f = AGet \/ cf_action f = ASet) /\ exists k, lt = TScalar k)) ->
+  nav ix (cf_ty f) v (cf_path f) 0 lt lv ic' ->
+  enc (cf_ty f) v = Some img -> sits img m o -> len img < 2^62 ->
+  let addr := o + crun (ld m o) ix (cf_body f) (cf_final f) in
+  exists e, enc lt lv = Some e /\ sits e m addr /\ o <= addr /\ addr + len e <= o + len img.
+Proof. exact accessor_addresses_element. Qed.
+Theorem C02_getter_reads_the_element : forall f v img m o ix k bs ic',
+  cfun_ok f = None -> cf_action f = AGet ->
+  nav ix (cf_ty f) v (cf_path f) 0 (TScalar k) (VNum bs) ic' ->
+  enc (cf_ty f) v = Some img -> sits img m o -> len img < 2^62 ->
+  let addr := o + crun (ld m o) ix (cf_body f) (cf_final f) in
+  rd m addr (ssize k) = bs /\ o <= addr /\ addr + ssize k <= o + len img.
+Proof. exact getter_reads_the_element. Qed.
+(* lengths: an accepted *_len accessor returns the number of items of the addressed array *)
+Theorem C02_len_accessor : forall f v img m o ix item shape order sh items ic',
+  cfun_ok f = None -> cf_action f = ALen ->
+  nav ix (cf_ty f) v (cf_path f) 0 (TArray item shape order) (VArr sh items) ic' ->
+  enc (cf_ty f) v = Some img -> sits img m o -> len img < 2^62 ->
+  crun (ld m o) ix (cf_body f) (cf_final f) = prod sh /\ prod sh = len items.
+Proof. exact len_accessor_returns_item_count. Qed.
 Theorem C02_strides : forall shape order isz idx,
   let n := length order in
   Permutation.Permutation order (seq 0 n) -> length shape = n -> length idx = n ->
@@ -49,3 +76,6 @@ Print Assumptions C02_symbolic_execution_sound.
 Print Assumptions C02_validator_sound.
 Print Assumptions C02_accessor_sound.
 Print Assumptions C02_strides.
+Print Assumptions C02_accessor_addresses_element.
+Print Assumptions C02_getter_reads_the_element.
+Print Assumptions C02_len_accessor.
